@@ -98,6 +98,26 @@ def case_history(cid, rnd, stdlib):
         h["names"] = h["names"] + ["sh_far", "sh_near"]
         forced = forced | {n0 + 2, n0 + 3}
         tags.append("shadowing-module-appears")
+    if cid % 5 == 3:
+        # a fixture-less conftest whose MULTI-LINE plugin list / parenthesised import is edited on a
+        # continuation line only (the statement's first line stays as it was)
+        base = "/vk%d" % (cid % 5)
+        fx = "import pytest\n\n@pytest.fixture\ndef %s():\n    return 1\n"
+        style = rnd.choice(["plugins", "import"])
+        if style == "plugins":
+            v1 = "pytest_plugins = [\n    \"ml_pa\",\n]\n"
+            v2 = "pytest_plugins = [\n    \"ml_pa\",\n    \"ml_pb\",\n]\n"
+        else:
+            v1 = "from ml_pa import (\n    ml_a,\n)\nfrom ml_pb import (\n    ml_unused,\n)\n"
+            v2 = "from ml_pa import (\n    ml_a,\n)\nfrom ml_pb import (\n    ml_b,\n)\n"
+        n0 = len(h["versions"])
+        h["versions"] = h["versions"] + [
+            (base + "/mlp/ml_pa.py", fx % "ml_a"), (base + "/mlp/ml_pb.py", fx % "ml_b"),
+            (base + "/mlp/conftest.py", v1), (base + "/mlp/test_ml.py", "def test_ml(ml_a, ml_b):\n    pass\n"),
+            (base + "/mlp/conftest.py", v2)]
+        h["names"] = h["names"] + ["ml_a", "ml_b"]
+        forced = forced | {n0 + 3, n0 + 4}
+        tags.append("edit:continuation-line-only")
     for i, (p, text) in enumerate(h["versions"]):
         op = {"op": "analyze", "path": p, "text": text}
         steps.append(op)
